@@ -49,6 +49,8 @@ var c09RuntimeSigs = []struct {
 	{regexp.MustCompile(`runtime error`), "runtime-other"},
 	{regexp.MustCompile(`reflect: |reflect\.Value|reflect\.`), "reflect"},
 	{regexp.MustCompile(`negative Repeat count|Repeat count causes overflow|strings\.Builder|bytes\.Buffer: |strings: |bytes: `), "stdlib-panic"},
+	// math/big panics with these texts (SetString / Text with a base outside 2..62, Exp / Div misuse)
+	{regexp.MustCompile(`invalid number base|big: |division by zero in big|math/big`), "stdlib-panic"},
 }
 
 // c09FaultKind returns "" when the result is a value or a proper Lisp condition.
@@ -148,6 +150,34 @@ func (r *c09Run) explore(units [][]c09Case, progress func(i int, res []c09Result
 	t0 := time.Now()
 	res := r.eng.RunUnits(units, progress)
 	conf := r.eng.Confirming()
+	// a unit abandoned after too many deadline kills (status S for its tail): on an overloaded machine
+	// those kills can be load artifacts, so the tail is run once more with the long deadline (and the
+	// same kill budget); what is abandoned again is reported
+	{
+		again := r.eng.Confirming()
+		again.KillBudget = r.eng.KillBudget
+		var tails [][]c09Case
+		var at [][2]int
+		for u := range res {
+			for k := range res[u] {
+				if res[u][k].Status == "S" {
+					tails = append(tails, units[u][k:])
+					at = append(at, [2]int{u, k})
+					break
+				}
+			}
+		}
+		if len(tails) > 0 {
+			tres := again.RunUnits(tails, nil)
+			for i, a := range at {
+				for j := range tres[i] {
+					tres[i][j].Session += a[1]
+					res[a[0]][a[1]+j] = tres[i][j]
+				}
+			}
+			r.c.Ev.Count("abandoned_tails_rerun", len(tails))
+		}
+	}
 	if verbose {
 		n := 0
 		for _, u := range units {
@@ -157,7 +187,7 @@ func (r *c09Run) explore(units [][]c09Case, progress func(i int, res []c09Result
 	}
 	obs := make([][]c09Obs, len(units))
 	type ref struct{ u, k int }
-	var faults []ref
+	var faults, deferred []ref
 	listed := map[ref]bool{}
 	ranAlone := map[ref]bool{} // already observed alone in a fresh worker with the long deadline
 	accepted, skipped := 0, 0
@@ -219,6 +249,7 @@ func (r *c09Run) explore(units [][]c09Case, progress func(i int, res []c09Result
 	{
 		var keep []ref
 		slow, fresh := 0, 0
+		deferred = nil
 		for _, f := range faults {
 			st := res[f.u][f.k].Status
 			isSlow := st == "H" || st == "M"
@@ -227,6 +258,10 @@ func (r *c09Run) explore(units [][]c09Case, progress func(i int, res []c09Result
 				continue
 			}
 			fresh++
+			if os.Getenv("C09_NOCAP") == "" && isSlow && slow >= 24 && fresh <= 400 {
+				deferred = append(deferred, f) // decided after the first 24 were confirmed
+				continue
+			}
 			if os.Getenv("C09_NOCAP") == "" && (fresh > 400 || (isSlow && slow >= 24)) {
 				if st != "S" {
 					obs[f.u][f.k].Kind, obs[f.u][f.k].How = c09FaultKind(res[f.u][f.k]), "unconfirmed"
@@ -240,8 +275,34 @@ func (r *c09Run) explore(units [][]c09Case, progress func(i int, res []c09Result
 			}
 			keep = append(keep, f)
 		}
-		r.c.Ev.Count("faults_unconfirmed_overflow", len(faults)-len(keep))
+		r.c.Ev.Count("faults_unconfirmed_overflow", len(faults)-len(keep)-len(deferred))
 		faults = keep
+	}
+	if len(deferred) > 0 {
+		// more than 24 deadline / memory kills in the first pass. When none of the first 24 reproduces
+		// alone they were artifacts of machine load, and so are the others most likely: confirm them
+		// like the rest. When one does reproduce the tree really hangs: the others are taken as observed.
+		var probe [][]c09Case
+		for _, f := range faults {
+			if st := res[f.u][f.k].Status; (st == "H" || st == "M") && !listed[f] {
+				probe = append(probe, []c09Case{units[f.u][f.k]})
+			}
+		}
+		real := false
+		for _, pr := range conf.RunIsolated(probe) {
+			if c09FaultKind(pr[0]) == "unbounded" {
+				real = true
+			}
+		}
+		if real {
+			for _, f := range deferred {
+				obs[f.u][f.k].Kind, obs[f.u][f.k].How = c09FaultKind(res[f.u][f.k]), "unconfirmed"
+			}
+			r.c.Ev.Count("faults_unconfirmed_overflow", len(deferred))
+		} else {
+			faults = append(faults, deferred...)
+			r.c.Ev.Count("faults_deferred_confirmed", len(deferred))
+		}
 	}
 	// (1) alone
 	iso := make([][]c09Case, len(faults))
@@ -478,6 +539,11 @@ func runC09(c *lib.Ctx) {
 	}
 	if only == "" || strings.Contains(only, "stream") {
 		r.sweepStream()
+	}
+	if only == "" || strings.Contains(only, "stack") {
+		r.sweepStack()
+		r.sweepSharp()
+		r.sweepCursor()
 	}
 	if only == "" || strings.Contains(only, "format") {
 		r.sweepFormat()
@@ -1638,6 +1704,24 @@ func (r *c09Run) replay() {
 			bad = bad || (strings.HasPrefix(rep, "ok must-raise") && res.Status == "V")
 		case strings.HasPrefix(sig, "format-model"):
 			bad = bad || (rep == "ok raise" && res.Status == "V")
+		case strings.HasPrefix(sig, "reader-stack-model"):
+			ops, _ := in["ops"].(string)
+			_, offsets := c09StackText(ops)
+			want, ok := c09StackExpect(rep, offsets)
+			bad = bad || !ok || res.Status != "V" || strings.Trim(res.Text, `"`) != want
+		case strings.HasPrefix(sig, "format-cursor-model"):
+			f := strings.Fields(rep)
+			switch {
+			case len(f) >= 3 && f[1] == "raise":
+				bad = bad || res.Status == "V"
+			case len(f) == 4 && f[1] == "done":
+				want := strings.ReplaceAll(strings.ReplaceAll(f[2], ".", ""), "-", "")
+				bad = bad || res.Status != "V" || res.Text != "\""+want+"\""
+			default:
+				bad = true
+			}
+		case strings.HasPrefix(sig, "reader-sharp-model"):
+			bad = bad || (rep == "ok raise" && res.Status == "V") || (strings.HasPrefix(rep, "ok radix") && (res.Status != "V" || res.Text != "(1)"))
 		case strings.HasPrefix(sig, "group-model"):
 			f := strings.Fields(rep)
 			bad = bad || len(f) != 2 || res.Status != "V" || res.Text != "\""+lib.Unhex(f[1])+"\""
